@@ -573,20 +573,23 @@ def encode_header(h, dc=None):
 
 
 def build_image(n_entries, blocks, dc=None, version=1, dates=(0, 0, 0), free_comment="", free_dates=(0, 0, 0),
-                with_spans=False, gaps=None, free_offsets=None):
+                with_spans=False, gaps=None, free_offsets=None, holes_before=None):
     """A compact, well-formed file image: live blocks in table order, free slots trailing,
     every free slot's offset = end of data.  blocks: list of dicts with type, format,
     payload (bytes), comment, cdate, mdate, adate."""
-    assert len(blocks) <= n_entries
+    holes_before = list(holes_before or [0] * len(blocks))   # holes_before[i]: unused slots in the table in front of live block i (another
+    assert len(blocks) + sum(holes_before) <= n_entries      # writer deleted blocks and left their slots where they were); data stays in order
     gaps = list(gaps or [0] * len(blocks))   # gaps[i]: unused bytes after block i (well-formed, but not compact)
     e = Enc(dc)
     enc_header(e, {"version": version, "nEntries": n_entries, "dates": list(dates)})
     off = HEADER_SIZE + ENTRY_SIZE * n_entries
-    for b, g in zip(blocks, gaps):
+    for b, g, h in zip(blocks, gaps, holes_before):
+        for _ in range(h):
+            enc_entry(e, {"type": 0, "format": 0, "offset": off, "size": 0, "cdate": free_dates[0], "mdate": free_dates[1], "adate": free_dates[2], "comment": free_comment})
         enc_entry(e, {"type": b["type"], "format": b["format"], "offset": off, "size": len(b["payload"]),
                       "cdate": b["cdate"], "mdate": b["mdate"], "adate": b.get("adate", 0), "comment": b["comment"]})
         off += len(b["payload"]) + g
-    for k in range(n_entries - len(blocks)):
+    for k in range(n_entries - len(blocks) - sum(holes_before)):
         # the first unused slot carries the end-of-data offset (that is what add_block reuses); later ones may hold
         # anything in foreign files (the library re-points them on the next add)
         o = off if k == 0 or not free_offsets else free_offsets[(k - 1) % len(free_offsets)]
